@@ -717,6 +717,11 @@ pub fn num_children(cell: &ActorCell) -> usize {
     cell.inner.tree.get_children().len()
 }
 
+/// Whether the cell's child set has been closed for good by `take_children`
+pub fn children_closed(cell: &ActorCell) -> bool {
+    cell.inner.tree.verif_children_closed()
+}
+
 /// Deliver a supervision event to a cell's supervision port from outside (environment action)
 pub fn inject_supervision(cell: &ActorCell, evt: SupervisionEvent) -> bool {
     cell.send_supervisor_evt(evt).is_ok()
